@@ -37,9 +37,11 @@ static void decoders(size_t maxlen) {
     for (unsigned long long v = 0; v < combos; ++v) {
       for (size_t k = 0; k < len; ++k) buf[k] = (unsigned char)(v >> (8 * k));
       // exactly sized heap block: any read outside [p, p+len) is an ASan report
-      char* p = (char*)malloc(len ? len : 1); memcpy(p, buf, len);
+      // (the empty range lies at the very end of a one byte block that holds a continuation byte)
+      char* blk = (char*)malloc(len ? len : 1); char* p = len ? blk : blk + 1; if (len) memcpy(p, buf, len); else blk[0] = (char)0xA5;
       bool valid = Unicode::isValid(p, len);
       uint32 cp = Unicode::fromString(p, len);
+      if (!len && cp != 0) { printf("MISMATCH fromString of the empty range lib=%u ref=0\n", cp); fflush(stdout); exit(1); }
       usize l = len ? Unicode::length(p[0]) : 0;
       ++total; if (valid) ++validCount;
       if (len && (buf[0] & 0x80)) { ++multi; if (l > len) ++truncated; }
@@ -48,7 +50,7 @@ static void decoders(size_t maxlen) {
       if (refValid != valid) { printf("MISMATCH isValid %s lib=%d ref=%d\n", hex(buf, len).c_str(), (int)valid, (int)refValid); fflush(stdout); exit(1); }
       size_t sl = 0; long rcp = refDecode(buf, len, sl);
       if (rcp >= 0) { ++agree; if ((long)cp != rcp) { printf("MISMATCH fromString %s lib=%u ref=%ld\n", hex(buf, len).c_str(), cp, rcp); fflush(stdout); exit(1); } }
-      free(p);
+      free(blk);
     }
   }
   printf("D total=%llu valid=%llu multibyte_lead=%llu truncated_tail=%llu decoded_equal=%llu\n", total, validCount, multi, truncated, agree);
@@ -77,7 +79,19 @@ int main(int argc, char** argv) {
   if (mode == "numbers" && argc >= 4) {
     rs = strtoull(argv[2], 0, 10) * 77 + 5; long n = atol(argv[3]);
     static const long long B[] = {0, 1, -1, 9, 10, 11, 99, 100, 101, INT_MAX, INT_MIN, (long long)INT_MAX + 1, (long long)INT_MIN - 1, UINT_MAX, (long long)UINT_MAX + 1, LLONG_MAX, LLONG_MIN, LLONG_MAX - 1, LLONG_MIN + 1};
+    // the same text as a String that views part of a larger, unterminated buffer in which a digit follows (a field of a record):
+    // the conversion must stop at the String's end; the block is exactly sized, so running on is also an ASan report
+    auto view = [&](const String& t, char follow, auto conv) {
+      usize n = t.length(); char* b = (char*)malloc(n + 1); memcpy(b, (const char*)t, n); b[n] = follow;
+      bool r; { String v; v.attach(b, n); r = conv(v); }
+      free(b); return r;
+    };
     auto one = [&](long long sv, unsigned long long uv) {
+      char fo = "0179"[rnd() % 4];
+      { int v = (int)sv; String t = String::fromInt(v); if (!view(t, fo, [&](const String& s) { return s.toInt() == v; })) { printf("MISMATCH view toInt %s\n", (const char*)t); fflush(stdout); exit(1); } }
+      { uint v = (uint)uv; String t = String::fromUInt(v); if (!view(t, fo, [&](const String& s) { return s.toUInt() == v; })) { printf("MISMATCH view toUInt %s\n", (const char*)t); fflush(stdout); exit(1); } }
+      { int64 v = (int64)sv; String t = String::fromInt64(v); if (!view(t, fo, [&](const String& s) { return s.toInt64() == v; })) { printf("MISMATCH view toInt64 %s\n", (const char*)t); fflush(stdout); exit(1); } }
+      { uint64 v = (uint64)uv; String t = String::fromUInt64(v); if (!view(t, fo, [&](const String& s) { return s.toUInt64() == v; })) { printf("MISMATCH view toUInt64 %s\n", (const char*)t); fflush(stdout); exit(1); } }
       { int v = (int)sv; String t = String::fromInt(v); String copy(t); bool ok = t.toInt() == v && String::toInt((const char*)copy) == v; printf("I int %s %d %d\n", (const char*)t, v, (int)ok); }
       { uint v = (uint)uv; String t = String::fromUInt(v); bool ok = t.toUInt() == v; printf("I uint %s %u %d\n", (const char*)t, v, (int)ok); }
       { int64 v = (int64)sv; String t = String::fromInt64(v); bool ok = t.toInt64() == v; printf("I int64 %s %lld %d\n", (const char*)t, (long long)v, (int)ok); }
